@@ -6,7 +6,7 @@ F = [P + "svt_get_sequence_info", P + "read_obu_header_size", P + "read_obu_head
 META = {
     "level_text": "For spliced input (a second sequence header inside the byte string): the decoder's decision to keep or re-allocate its frame-level memory (OBU_SEQUENCE_HEADER case of decode_multiple_obu, sliced) is checked against the real allocators init_dec_mod_ctxt / init_lf_ctxt / init_lr_ctxt for EVERY pair of old and new header: memory is kept only if no buffer would have to be larger. The real OBU-header / sequence-header parser behind the public svt_get_sequence_info on EVERY byte string of length 1..N held in a heap object of exactly that length: CBMC's pointer/bounds/shift/overflow checks and unwinding assertions (termination) are the oracle. Two variants: exact-size buffer (any over-read is reported) and a buffer with the bit reader's 8 bytes of look-ahead (everything except that look-ahead is reported). Plus the frame-level mode-info offset map: the real allocation statements of init_master_frame_ctxt and the real update_block_nbrs, for every block position inside the superblock-aligned frame of several concrete frame geometries (portrait and landscape, superblock 64 and 128): every write stays inside the allocation.",
     "level_note": "Parsing stops at the sequence header: frame headers, tile data and reconstruction on corrupt input are outside. The 16-byte look-ahead of dec_bits_init/GET_BITS past the caller's data is a known finding (see known_findings.txt), reported as KNOWN-FINDING by the exact-size variant.",
-    "technique": "CBMC bounded symbolic execution over all input byte strings up to N with exact-size heap buffers",
+    "technique": "CBMC bounded symbolic execution of the real code: all input byte strings up to N with exact-size heap buffers (OBU walk); all block positions (mode-info map); 2-safety over all pairs of sequence headers against the real allocators (memory re-initialisation)",
     "assumptions": ["single call on a fresh SeqHeader"],
     "outside": ["svt_av1_dec_frame beyond the sequence header", "multi-threaded decode"],
     "stubs": [], "explanation": ""}
